@@ -240,6 +240,7 @@ def write(seed, objs=None, trailer_extra=None):
     if seed["form"] == "table":
         return W.build_pdf(objs, info=info, trailer_extra=trailer_extra)
     rev = {"defs": objs, "root": 1, "info": info, "form": "stream", "trailer_extra": trailer_extra,
+           "objstm_damage": seed.get("objstm_damage"),
            "pack": [n for n in objs if not W.is_stream(objs[n])], "nstm": 2, "flate": True, "png_up": True, "objstm_flate": True,
            "w": [1, 3, 2], "index_default": True}
     data, _ = X.write_history([rev])
